@@ -231,6 +231,9 @@ func (w *vfWorld) expectEvent(typ, user, what string) {
 }
 
 func eventsFinal(w *vfWorld) {
+	if w.aborted {
+		return // a stuck publisher may hold the notifier's lock: leave every subscriber alone
+	}
 	for _, s := range w.subs {
 		if !s.closed {
 			s.client.Close()
